@@ -30,7 +30,7 @@ pub fn profile_from(s: &str) -> Profile {
 
 fn pick_len(r: &mut Rng, maxp: usize, prof: Profile) -> usize {
     let m = MAX_FRAGMENT_SIZE;
-    if prof == Profile::Frag && r.chance(1, 25) {
+    if prof == Profile::Frag && r.chance(1, 8) {
         // many fragments: the per-fragment flag words of sender and receiver are 64 bits wide
         let k = *r.pick(&[31usize, 32, 33, 40, 63, 64, 65, 70, 127, 128, 130]);
         return (k * m + *r.pick(&[0usize, 1, 700])).min(maxp);
@@ -391,10 +391,12 @@ pub fn run_random(tr: &mut Trace, run: u64, seed: u64, prof: Profile) -> RunStat
         if el > horizon_ms + (probe_bytes * 1000) / 23 {
             break;
         }
-        if tr.lines - tail_lines0 > 40_000 {
-            // trace budget of one run exhausted before the horizon: the run is not judged for quiescence
+        if tr.lines - tail_lines0 > 40_000 && !tr.muted {
+            // trace budget of one run exhausted before the horizon: nothing more is logged (the monitors that follow the
+            // run line by line do not judge it at rest: `cut`), but the run goes on in silence until it comes to rest or
+            // reaches the horizon - a connection that chatters for ever without finishing is a stall all the same
             cut = true;
-            break;
+            tr.muted = true;
         }
         // cadence grows so that an hour of virtual time stays cheap, but never exceeds 1 s
         let dt = if el < 30_000 { 20 } else if el < 300_000 { 100 } else { 1000 };
@@ -422,6 +424,8 @@ pub fn run_random(tr: &mut Trace, run: u64, seed: u64, prof: Profile) -> RunStat
         let _ = iter;
     }
     }
+    let stalled = tr.muted && !st.quiesced && !p.dead;
+    tr.muted = false;
     if !p.dead {
         for e in 0..2 {
             p.log_probe = true;
@@ -429,7 +433,7 @@ pub fn run_random(tr: &mut Trace, run: u64, seed: u64, prof: Profile) -> RunStat
             let hc = p.ep[e].hc.as_ref().unwrap();
             let s = hc.verif_snapshot();
             tr.line(json!({"ev": "Quiesced", "ep": p.ep[e].name, "pending": p.ep[e].last_pending, "bufsize": p.ep[e].last_bufsize.min(2_000_000_000),
-                "t": p.t_ms(), "tail_ms": p.t_ms() - tail_start, "horizon_ms": horizon_ms.min(2_000_000_000), "reached": st.quiesced, "cut": cut,
+                "t": p.t_ms(), "tail_ms": p.t_ms() - tail_start, "horizon_ms": horizon_ms.min(2_000_000_000), "reached": st.quiesced && !cut, "cut": cut, "stalled": stalled,
                 "rate": s.rate.send_rate, "rmode": s.rate.mode, "credit": s.flush_alloc.clamp(-2_000_000_000, 2_000_000_000), "rx_alloc": s.rx_alloc, "honest": !tampered_run}));
         }
     }
